@@ -187,6 +187,33 @@ struct B<'a> {
     unsupported: Vec<String>,
 }
 
+fn negated(t: &str) -> Option<String> {
+    if t.starts_with("!(") && t.ends_with(')') {
+        // the parenthesis opened at position 1 must be the one closed at the end
+        let mut depth = 0i32;
+        for (i, c) in t.char_indices().skip(1) {
+            match c {
+                '(' => depth += 1,
+                ')' => {
+                    depth -= 1;
+                    if depth == 0 {
+                        return if i == t.len() - 1 { Some(t[2..t.len() - 1].to_string()) } else { None };
+                    }
+                }
+                _ => {}
+            }
+        }
+    }
+    None
+}
+
+fn negate(t: &str) -> String {
+    match negated(t) {
+        Some(inner) => inner,
+        None => format!("!({})", t),
+    }
+}
+
 fn last_seg(e: &Expr) -> Option<String> {
     if let Expr::Path(p) = e {
         return p.path.segments.last().map(|s| s.ident.to_string());
@@ -570,6 +597,10 @@ impl<'a> B<'a> {
     }
 
     fn fork(&mut self, p: &Path, text: &str, labelled: bool) -> (Path, Path) {
+        if let Some(inner) = negated(text) {
+            let (t, f) = self.fork(p, &inner, labelled);
+            return (f, t);
+        }
         if labelled {
             (self.step(p, &format!("if[{}]=T", text)), self.step(p, &format!("if[{}]=F", text)))
         } else {
@@ -641,7 +672,7 @@ impl<'a> B<'a> {
                     for (_, v) in o.normal.iter_mut() {
                         *v = match v.shape {
                             Shape::Bool(b) => Val::boolean(!b),
-                            _ => Val { text: format!("!{}", v.text), shape: Shape::Unknown, proto: v.proto },
+                            _ => Val { text: negate(&v.text), shape: Shape::Unknown, proto: v.proto },
                         };
                     }
                 }
@@ -931,7 +962,24 @@ impl<'a> B<'a> {
                 let op = toks(&b.op);
                 for (q, vs) in self.eval_seq(&[&b.left, &b.right], p, &mut ctl) {
                     let (l, r) = (&vs[0], &vs[1]);
-                    let v = Val { text: format!("{} {} {}", l.text, op, r.text), shape: Shape::Unknown, proto: l.proto || r.proto };
+                    // comparisons in one canonical form: only `<` and `==` (operands of `==` sorted), negated when needed
+                    let text = match op.as_str() {
+                        "<" => format!("{} < {}", l.text, r.text),
+                        ">" => format!("{} < {}", r.text, l.text),
+                        ">=" => negate(&format!("{} < {}", l.text, r.text)),
+                        "<=" => negate(&format!("{} < {}", r.text, l.text)),
+                        "==" | "!=" => {
+                            let (a, b2) = if l.text <= r.text { (&l.text, &r.text) } else { (&r.text, &l.text) };
+                            let t = format!("{} == {}", a, b2);
+                            if op == "==" {
+                                t
+                            } else {
+                                negate(&t)
+                            }
+                        }
+                        _ => format!("{} {} {}", l.text, op, r.text),
+                    };
+                    let v = Val { text, shape: Shape::Unknown, proto: l.proto || r.proto };
                     ctl.normal.push((q, v));
                 }
                 ctl
